@@ -42,6 +42,7 @@ def run(ctx):
     ctx.guard(r5_sizes)
     ctx.guard(r6_bsearch)
     ctx.guard(r7_levels)
+    ctx.guard(r8_mirror)
 
 
 def _cls(ctx, name):
@@ -427,3 +428,63 @@ def r7_levels(ctx):
     for key in ("codec/tensor_codec.py:Codec.encode", "codec/tensor_codec.py:Codec.get_occupancies"):
         n += pat.check_unit_recursion(ctx, "C20.R1", ctx.func(key), "rank-by-rank encoding")
     ctx.floor("C20.R1", n, 2, "recursion steps of the codec")
+
+
+# -- R8: the flat arrays and the encoded fiber object receive the same words -----------
+
+def r8_mirror(ctx):
+    """encodeFiber writes every stored word twice: into the per-rank output
+    arrays (`output[coords_key]`, `output[payloads_key]`) and into the
+    encoded fiber object the handle API scans (`self.coords`,
+    `self.payloads`, `self.occupancies`).  Each write to an output array must
+    have, in the same block, a mirror write of the same value with the same
+    list method on the object (and the other way round for coords /
+    occupancies / leaf payloads), otherwise the arrays and the object scan
+    disagree."""
+    n = 0
+    for d, cname in FORMATS.items():
+        ci = _cls(ctx, cname)
+        f = ci.methods.get("encodeFiber")
+        if f is None:
+            continue
+        outp = f.all_param_names()[6] if len(f.all_param_names()) > 6 else "output"
+        child = set()
+        for a in f.own_nodes():
+            if isinstance(a, ast.Assign) and isinstance(a.targets[0], ast.Tuple) and \
+                    isinstance(a.value, ast.Call) and text(a.value.func).endswith(".encode"):
+                child.add(text(a.targets[0].elts[0]))
+        writes = []
+        for c in f.own_nodes():
+            if isinstance(c, ast.Call) and isinstance(c.func, ast.Attribute) and \
+                    c.func.attr in ("append", "extend") and len(c.args) == 1:
+                tgt = c.func.value
+                if isinstance(tgt, ast.Subscript) and text(tgt.value) == outp:
+                    writes.append(("out", c))
+                elif isinstance(tgt, ast.Attribute) and text(tgt.value) == "self" and \
+                        tgt.attr in ("coords", "payloads", "occupancies"):
+                    writes.append(("obj", c))
+        from ..cfg import parent_block
+        for side, c in writes:
+            arg = text(c.args[0]).replace(" ", "")
+            if side == "obj" and arg in child:
+                continue        # the child fiber object: no flat counterpart
+            if side == "out" and arg.startswith("self."):
+                continue        # the object's own array flushed at the end
+            blk = parent_block(enclosing_stmt(c))[0]
+            other = "obj" if side == "out" else "out"
+            mirror = [c2 for s2, c2 in writes if s2 == other and
+                      enclosing_stmt(c2) in blk and
+                      text(c2.args[0]).replace(" ", "") == arg and
+                      c2.func.attr == c.func.attr]
+            n += 1
+            if mirror:
+                ctx.ok("C20.R8", f, c, "mirrored by `%s`" % text(mirror[0])[:50])
+            else:
+                ctx.bad("C20.R8", f, c, "%s.encodeFiber writes `%s` but the %s "
+                        "does not receive the same value with the same list "
+                        "operation in this block: the flat arrays and the "
+                        "handle scan of the encoded fiber deliver different "
+                        "words" % (cname, text(c)[:60],
+                                   "encoded fiber object" if side == "out"
+                                   else "output array"))
+    ctx.floor("C20.R8", n, 12, "mirrored array writes in the encoders")
